@@ -78,6 +78,9 @@ func genNat(r *common.Rand, w uint64) uint64 {
 }
 
 // GenValue draws a value of model m (always a struct value).
+// SubMs: time fields get a sub-millisecond remainder (values for `enc` only)
+var SubMs bool
+
 func (m *Model) GenValue(r *common.Rand, depth int) *V {
 	v := &V{K: VStruct}
 	for i := range m.Fields {
@@ -106,6 +109,15 @@ func (m *Model) genKind(r *common.Rand, k *Kind, depth int, mayAbsent bool) *V {
 		ms := common.Pick(r, []uint64{0, 1, 10, 1000, 4000, 0xff, 0x100, 0xffff, 0x10000, 1 << 32, 9223372036853})
 		if r.Chance(1, 2) {
 			ms = uint64(r.Intn(100000))
+		}
+		if SubMs {
+			// durations that are not whole milliseconds (encode-only values: the wire carries
+			// milliseconds): the length pass and the encode pass must agree on the same number, also
+			// right at the width boundaries of the natural-number encoding
+			if r.Chance(1, 2) {
+				ms = common.Pick(r, []uint64{0, 0xff, 0xffff, 0xffffffff, 0xfe, 0xfffe})
+			}
+			return &V{K: VNat, N: ms*1000000 + common.Pick(r, []uint64{1, 499999, 500000, 500001, 999999, uint64(r.Intn(1000000))})}
 		}
 		return &V{K: VNat, N: ms * 1000000}
 	case "bool":
@@ -596,4 +608,25 @@ func (m *Model) MinimalValues(depth int) []*V {
 		out = out[:160]
 	}
 	return out
+}
+
+// HasKind reports whether the model, or a model nested in it, has a field of the given kind.
+func (m *Model) HasKind(tag string) bool { return m.hasKind(tag, 0) }
+
+func (m *Model) hasKind(tag string, depth int) bool {
+	if depth > 6 {
+		return false
+	}
+	for i := range m.Fields {
+		k := &m.Fields[i].K
+		if k.Tag == tag {
+			return true
+		}
+		if k.Struct != "" {
+			if in := m.Inner(k); in != nil && in.hasKind(tag, depth+1) {
+				return true
+			}
+		}
+	}
+	return false
 }
